@@ -24,13 +24,16 @@ func init() {
 		Rule:        "cases are histories of 5-80 inbound events (application messages, Heartbeat, TestRequest, ResendRequest, SequenceReset gap-fill/reset with NewSeqNo below/at/above the expected number, Logout, in-session Logon with/without 141=Y, Reject) x MsgSeqNum below/at/above expected x PossDup absent/Y/N x OrigSendingTime absent/earlier/later, with a peer that partly answers the engine's ResendRequests, for both roles, FIX.4.0-4.4 and FIXT.1.1, ResendRequestChunkSize in {0,1,2,3,7}, with and without dictionary; plus all histories of length<=4 over a 9-symbol relative alphabet; non-trivial = history with a FromApp delivery and an out-of-order arrival; distinct by the sequence of (event class, relation to expected, resulting state)",
 		Assumptions: []string{"the application never returns reject reasons 9/10 (the engine treats those as identity/time failures that log out without consuming the number)", "explicit user actions on the store (SetNextTargetMsgSeqNum through the registry, Refresh against a modified store) are outside the quantifier"},
 		FloorQuick:  200, FloorThorough: 2000,
-		Parts: []core.Part{{Name: "histories", Run: run, Replay: replay}},
+		Parts: []core.Part{{Name: "histories", Run: run, Replay: replay}, {Name: "live", Race: true, Run: runLive}},
 	})
 }
 
 // check walks a trace and returns violations.
-func check(tr []lab.Event) (viol []string, deliveries int) {
-	lastDeliv, pending := 0, 0
+func check(tr []lab.Event) (viol []string, deliveries int) { return checkTrace(tr, false) }
+
+// checkTrace: in live traces every event has its own ticket, so there are no step boundaries.
+func checkTrace(tr []lab.Event, liveTrace bool) (viol []string, deliveries int) {
+	lastDeliv, pending, lastAfter := 0, 0, 0
 	curStep := -1
 	endStep := func() {
 		if pending != 0 {
@@ -39,7 +42,7 @@ func check(tr []lab.Event) (viol []string, deliveries int) {
 		}
 	}
 	for _, e := range tr {
-		if e.Step != curStep {
+		if e.Step != curStep && !liveTrace {
 			endStep()
 			curStep = e.Step
 		}
@@ -49,7 +52,7 @@ func check(tr []lab.Event) (viol []string, deliveries int) {
 			if pending != 0 {
 				viol = append(viol, fmt.Sprintf("not-consumed: FromApp(%d) while FromApp(%d) has not been consumed", e.Seq, pending))
 			}
-			if e.Seq != e.NextTarget {
+			if e.NextTarget != 0 && e.Seq != e.NextTarget { // (live traces carry no snapshot)
 				viol = append(viol, fmt.Sprintf("not-expected-number: FromApp(%d) while the next expected number is %d", e.Seq, e.NextTarget))
 			}
 			if e.Seq <= lastDeliv {
@@ -59,8 +62,18 @@ func check(tr []lab.Event) (viol []string, deliveries int) {
 		case "store":
 			switch e.StoreOp {
 			case "Reset":
-				lastDeliv, pending = 0, 0
+				lastDeliv, pending, lastAfter = 0, 0, 0
+			case "Refresh":
+				lastAfter = 0
 			case "IncrTarget", "SetTarget":
+				if lastAfter != 0 && e.Before != lastAfter {
+					cls := "changed-behind-the-engine"
+					if e.Before < lastAfter {
+						cls = "moved-backwards"
+					}
+					viol = append(viol, fmt.Sprintf("%s: the next expected number was %d after the previous update and is %d now without any update by the session in between", cls, lastAfter, e.Before))
+				}
+				lastAfter = e.After
 				if pending != 0 {
 					if !(e.StoreOp == "IncrTarget" && e.Before == pending && e.After == pending+1) {
 						viol = append(viol, fmt.Sprintf("wrong-advance: after FromApp(%d) the expected number went %d->%d via %s", pending, e.Before, e.After, e.StoreOp))
@@ -76,7 +89,9 @@ func check(tr []lab.Event) (viol []string, deliveries int) {
 			}
 		}
 	}
-	endStep()
+	if !liveTrace {
+		endStep()
+	}
 	return
 }
 
